@@ -191,6 +191,9 @@ def _coerce_decl(self, st, val, t):
         return SV(t, z3.K(t.elem.sort(), z3.BoolVal(False)))
     if isinstance(val.t, TPy) and val.t.what == "bstr" and isinstance(t, TPy) and t.what == "bstr":
         return val
+    if isinstance(val.t, TSeq) and isinstance(t, TPy) and t.what == "bstr":
+        # a string given as its character sequence, passed where only the length matters
+        return SV(BSTR, py={"len": val.t.len(val.z), "name": "chars"})
     return _orig_coerce_decl(self, st, val, t)
 
 
